@@ -40,6 +40,18 @@ type netBehaviour struct {
 	feed func(e *simEnv, p *refmatch.Probe, horizon time.Duration, r *rand.Rand)
 }
 
+// floodPlan: frames every `step` for the whole horizon, thinned out for very long horizons (a serial run over 130 TTLs
+// lasts more than a virtual minute) so that the flood stays below the harness's own run-away-reader guard
+// (simnet.MaxReadsPerHandle): the flood must outlast the run, its rate is not what the bound depends on.
+func floodPlan(horizon, step time.Duration) (int, time.Duration) {
+	n := int(horizon / step)
+	if n > 250000 {
+		n = 250000
+		step = horizon / time.Duration(n)
+	}
+	return n, step
+}
+
 func netBehaviours() []netBehaviour {
 	irrelevant := func(e *simEnv, n int) []byte {
 		return udpFrame(uniqueAddr(e.spec.V.V6, 9000+n), e.local, 53, uint16(1000+n%5000), e.spec.V.V6)
@@ -51,21 +63,21 @@ func netBehaviours() []netBehaviour {
 				return
 			}
 			// 10^4 frames per virtual second for the whole horizon
-			n := int(horizon / (100 * time.Microsecond))
+			n, step := floodPlan(horizon, 100*time.Microsecond)
 			for i := 0; i < n; i++ {
-				e.inject(irrelevant(e, i), "flood:irrelevant", nil, oddUS(time.Duration(i)*100*time.Microsecond))
+				e.inject(irrelevant(e, i), "flood:irrelevant", nil, oddUS(time.Duration(i)*step))
 			}
 		}},
 		{"malformed-flood", func(e *simEnv, p *refmatch.Probe, horizon time.Duration, r *rand.Rand) {
 			if p.TTL != int(e.spec.MinTTL) {
 				return
 			}
-			n := int(horizon / (250 * time.Microsecond))
+			n, step := floodPlan(horizon, 250*time.Microsecond)
 			for i := 0; i < n; i++ {
 				b := make([]byte, 1+r.Intn(60))
 				r.Read(b)
 				b[0] = []byte{0x45, 0x60, 0x4f, 0x00}[r.Intn(4)]
-				e.inject(b, "flood:malformed", nil, oddUS(time.Duration(i)*250*time.Microsecond))
+				e.inject(b, "flood:malformed", nil, oddUS(time.Duration(i)*step))
 			}
 		}},
 		{"bursts", func(e *simEnv, p *refmatch.Probe, horizon time.Duration, r *rand.Rand) {
